@@ -81,6 +81,7 @@ func runEvScenario(sc evScenario) (pre, post [][]string, note string) {
 	allSent := make(chan struct{})
 	consDone := make(chan struct{})
 	startCons := make(chan struct{})
+	rc := newRng(sc.seed + 1) // the consumer's own generator
 	go func() {
 		defer close(consDone)
 		<-startCons
@@ -103,9 +104,9 @@ func runEvScenario(sc evScenario) (pre, post [][]string, note string) {
 			}
 			mu.Unlock()
 			if sc.mode == "early" {
-				time.Sleep(time.Duration(100+r.Intn(400)) * time.Microsecond)
-			} else if sc.slowCons && r.Intn(4) == 0 {
-				time.Sleep(time.Duration(r.Intn(300)) * time.Microsecond)
+				time.Sleep(time.Duration(100+rc.Intn(400)) * time.Microsecond)
+			} else if sc.slowCons && rc.Intn(4) == 0 {
+				time.Sleep(time.Duration(rc.Intn(300)) * time.Microsecond)
 			}
 		}
 	}()
